@@ -30,10 +30,10 @@ InstrSem(f, in, tbls, active, filtered) ==
        \* zero-argument: constant, column copy, fn()
        IF fn.k = "const" /\ ConstType(fn.v) # "none" THEN
           IF ~NameOK(dst) THEN ErrFrame
-          ELSE IF filtered = 1 THEN Unspec        \* see DESIGN 7 (D15): constants ignore the filter
+          ELSE IF filtered \in {1, 3} THEN Unspec        \* see DESIGN 7 (D15): constants ignore the filter
           ELSE SetColumn(f, PlainCol(dst, ConstType(fn.v), [r \in 1..f.n |-> IF active[r] THEN Unx(fn.v.c) ELSE ZeroCell(ConstType(fn.v))]))
        ELSE IF fn.k = "col" THEN
-          IF filtered = 1 THEN Unspec
+          IF filtered \in {1, 3} THEN Unspec
           ELSE IF filtered = 0 THEN CopySem(f, dst, fn.v.s)
           ELSE \* by the letter of C06: the matching rows are copied, the others get the zero value
                IF ~HasCol(f, fn.v.s) THEN ErrFrame
@@ -57,10 +57,13 @@ InstrSem(f, in, tbls, active, filtered) ==
        ELSE IF fn.k = "builtin" THEN
           IF fn.sym # "ToUpper" \/ s1.typ \notin {"string", "enum"} THEN ErrFrame
           ELSE IF ~NameOK(dst) THEN ErrFrame
-          ELSE IF filtered # 0 THEN Unspec
-          ELSE LET up(c) == IF IsNull(c) THEN c ELSE Tbl1(tbls, fn.sym, c) IN
+          ELSE IF filtered = 2 \/ (filtered # 0 /\ s1.typ = "enum") THEN Unspec   \* enum: the value table is rewritten for all rows (D15 family)
+          ELSE LET up(c) == IF IsNull(c) THEN c ELSE Tbl1(tbls, fn.sym, c)
+                   \* under a filter the other rows get "the zero/null value": null (filtered = 1) or the
+                   \* empty string (filtered = 3) - the judge accepts either, consistently per call
+                   zero == IF filtered = 3 THEN MkCell(<<>>) ELSE NullCell IN
                IF s1.typ = "string"
-               THEN SetColumn(f, PlainCol(dst, "string", [r \in 1..f.n |-> up(s1.cells[r])]))
+               THEN SetColumn(f, PlainCol(dst, "string", [r \in 1..f.n |-> IF active[r] THEN up(s1.cells[r]) ELSE zero]))
                ELSE \* enum: the value table is rewritten entry by entry, the codes stay (ecolumn toUpper);
                     \* entries may collapse: then the frame is "ambiguous" (AmbFrame) and only
                     \* operations that go by the strings are specified on it (Judge)
@@ -96,7 +99,8 @@ ApplyCalls(f, instrs, k, tbls) ==
 
 ApplySem(f, instrs, tbls) == InstrFold(f, instrs, 1, tbls, [r \in 1..Max2(f.n, 0) |-> TRUE], 0)
 
-\* mode 1: constants, column copies and built-ins under a filter are unspecified (finding D15 kept out of the
+\* mode 3: as mode 1 with the empty string instead of null as the zero value of a built-in string result;
+\* mode 1: constants, column copies and built-ins on enums under a filter are unspecified (finding D15 kept out of the
 \* way of everything else); mode 2: judged by the letter of C06 (the witness scenarios of D15)
 FilteredApplySem(f, clause, instrs, tbls, mode) ==
   IF f.err THEN f
